@@ -381,6 +381,14 @@ func (i *Interpreter) Exec(ctx context.Context, bs match.Bindings, props core.St
 	}()
 
 	v, err := RunProgram(o, p)
+
+	// Exporting the result can run code, too (a property getter on
+	// the returned object), so do it before giving up the
+	// interrupt watcher and with the same protection.
+	var x interface{}
+	if err == nil {
+		x, err = exportValue(v)
+	}
 	cancel()
 
 	if err != nil {
@@ -389,8 +397,6 @@ func (i *Interpreter) Exec(ctx context.Context, bs match.Bindings, props core.St
 		}
 		return nil, err
 	}
-
-	x := v.Export()
 
 	var result match.Bindings
 	switch vv := x.(type) {
@@ -420,6 +426,21 @@ func canonicalize(x interface{}) (interface{}, error) {
 		return nil, err
 	}
 	return y, nil
+}
+
+// exportValue is v.Export() with panics (an exception or an
+// interrupt in a getter) turned into errors.
+func exportValue(v goja.Value) (x interface{}, err error) {
+	defer func() {
+		if r := recover(); r != nil {
+			if ie, is := r.(*goja.InterruptedError); is {
+				err = ie
+				return
+			}
+			err = fmt.Errorf("%s", r)
+		}
+	}()
+	return v.Export(), nil
 }
 
 func RunProgram(o *goja.Runtime, p *goja.Program) (v goja.Value, err error) {
